@@ -695,7 +695,8 @@ Proof.
   intros k Hk. unfold close_fuel. rewrite (inv_app _ _ _ I1).
   assert (Hm : rank sp k <= maxN (map (rank sp) (akeys (ms_pend st1))))
     by (apply maxN_ge, in_map, Hk).
-  rewrite Nat2N.inj_succ, N2Nat.id. lia.
+  rewrite Nat2N.inj_succ, N2Nat.id.
+  match goal with |- context [?x - N.of_nat a1 + ?c] => generalize c end. intro cyc. lia.
 Qed.
 
 (* number of entries after close = highest stored rank + 1 *)
